@@ -15,6 +15,8 @@ ACT_NAMES = ("ReLU ReLU6 RReLU SELU CELU GELU SiLU Mish ELU LeakyReLU Sigmoid Ta
              "Softshrink LogSigmoid PReLU Hardtanh Hardswish").split()
 
 
+DEFAULT_FLOAT = ["float32"]      # dtype tag of parameters / buffers created by the nn model (a check may switch to float64)
+
 class Handle:
     _ids = itertools.count()
 
@@ -31,7 +33,7 @@ class Parameter(Tensor):
         if isinstance(a, Arr):
             dtype = dtype or a.dtype
             a = a.a
-        super().__init__(a, dtype=dtype or "float32")
+        super().__init__(a, dtype=dtype or DEFAULT_FLOAT[0])
         self.requires_grad = False      # parameter gradients are never requested by the code under test
 
 
@@ -339,7 +341,7 @@ class BatchNorm1d(Module):
     def __init__(self, num_features, momentum=0.1, **k):
         super().__init__()
         self.num_features, self.momentum = num_features, momentum
-        self.register_buffer("running_mean", Tensor(np.zeros((num_features,), dtype=object), dtype="float32"))
+        self.register_buffer("running_mean", Tensor(np.zeros((num_features,), dtype=object), dtype=DEFAULT_FLOAT[0]))
         self.register_buffer("num_batches_tracked", Tensor(np.zeros((), dtype=object), dtype="int64"))
 
     def forward(self, x):
